@@ -75,6 +75,9 @@ def scripts_for(cfg, max_dev):
             # the last reply of the transaction, and the peer hangs up with it
             singles.append((s, '5+close'))
             singles.append((s, '4+close'))
+        if s in ('mail', 'rcpt0', 'eod', 'eod0'):
+            singles.append((s, '5x'))            # failure replies whose text begins with a status code of no known class
+            singles.append((s, '4x'))
         if s == 'auth':
             singles.append((s, '334-bad'))       # a challenge that cannot be decoded
             singles.append((s, '334-extra'))     # an extra challenge, then 235
@@ -117,7 +120,7 @@ def judge_smtp(cfg, script, w):
                     stage, o, txn = entry
                     if o in ('2', '500', '251', '334-extra'):
                         continue
-                    cls = 'perm' if o in ('5', '5+close') else 'temp'
+                    cls = 'perm' if o in ('5', '5+close', '5x') else 'temp'
                     if o in ('malformed', 'badcode', 'disconnect', 'stall', '334-bad') and txn == t_index and stage not in ('quit',):
                         for r in env.recipients:
                             deciding[r].add('temp')
@@ -138,7 +141,7 @@ def judge_smtp(cfg, script, w):
                 if o in ('2', '500', '251', '334-extra'):
                     continue
                 if stage in ('banner', 'ehlo', 'helo', 'auth', 'tls') or (stage == 'starttls' and cfg.get('tls_required')) or (o == 'stall' and stage == 'starttls'):
-                    cls = 'perm' if o in ('5', '5+close') else 'temp'
+                    cls = 'perm' if o in ('5', '5+close', '5x') else 'temp'
                     if not any(t['sender'].decode('latin-1') == env.sender for t in p.transactions):
                         for r in env.recipients:
                             deciding[r].add(cls)
